@@ -143,6 +143,7 @@ fn run(input: RunInput) -> ScenFuture {
             let expect = if t == Target::O && !o_plain_ok { Some(e_id) } else { expect };
             plan.push((t, expect, if spread_us == 0 { 0 } else { r.gen_range(0..=spread_us) }));
         }
+        let mut retired_nodes = Vec::new();
         let results: Arc<Mutex<Vec<(usize, Result<PeerId, String>, bool)>>> = Default::default();
         let mut futs = Vec::new();
         for (i, (t, expect, off)) in plan.iter().copied().enumerate() {
@@ -200,6 +201,47 @@ fn run(input: RunInput) -> ScenFuture {
                 }
             }
         }
+        // ---- an address changes hands while its former holder is still listed: the caller is
+        //      connected to Y at address A, Y vanishes without a word (no close reaches the caller,
+        //      so Y stays listed until the idle timeout), Z comes up on A. A dial of A reaches Z:
+        //      naming Y it fails, naming nobody it returns Z - whatever the caller still holds
+        //      "to that address" ----
+        let mut takeover_ids = Vec::new();
+        if !w.violated() && w.flag("address_changes_hands_while_the_old_holder_is_listed", 0.3) {
+            let y = w.start_node(w.spec(5, cfg.clone()), Svc::echo(&w)).unwrap();
+            let (y_id, a_y) = (y.peer_id, y.addr);
+            w.name_peer(y_id, "Y");
+            takeover_ids.push(y_id);
+            if c.net.connect(a_y).await.ok() == Some(y_id) {
+                w.fabric.isolate(a_y);
+                let _ = tokio::time::timeout(std::time::Duration::from_secs(30), y.net.shutdown()).await;
+                drop(y);
+                sleep_ms(20).await;
+                let still_listed = c.net.peers().contains(&y_id);
+                let mut spec = w.spec(5, cfg.clone());
+                spec.key = w.key_for(6);
+                if !w.fabric.is_bound(a_y) {
+                    let z = w.start_node(spec, Svc::echo(&w)).unwrap();
+                    w.name_peer(z.peer_id, "Z");
+                    takeover_ids.push(z.peer_id);
+                    w.fabric.heal_all();
+                    let pinned = c.net.connect_with_peer_id(a_y, y_id).await;
+                    w.check(pinned.is_err(), "dial-succeeded-with-identity-the-endpoint-does-not-hold", "target=taken-over-address expect=Y", || format!("a dial of Y's former address naming Y returned {:?} although Z answers there now (Y still listed: {still_listed})", pinned.as_ref().map(|p| w.pname(p)).map_err(|e| format!("{e:#}"))));
+                    match c.net.connect(a_y).await {
+                        Ok(p) => {
+                            w.check(p == z.peer_id, "dial-succeeded-with-identity-the-endpoint-does-not-hold", "target=taken-over-address expect=any", || format!("a plain dial of Y's former address returned Ok({}) but the endpoint there holds Z (Y still listed: {still_listed})", w.pname(&p)));
+                            w.check(c.net.peers().contains(&z.peer_id), "dial-ok-but-never-listed", "target=taken-over-address expect=any", || "the caller does not list Z after dialing it successfully".to_string());
+                        }
+                        Err(e) if !lossy => w.violate("matching-dial-failed-without-loss", "target=taken-over-address expect=any", format!("{e:#}")),
+                        Err(_) => {}
+                    }
+                    if still_listed {
+                        w.probe("address-taken-over-while-old-holder-listed");
+                    }
+                    retired_nodes.push(z);
+                }
+            }
+        }
         // nobody is listed, announced or served because of a mismatching or impostor dial
         sleep_ms(6_000 + 1_500 + 500).await;
         sub_c.drain(w.now_ns());
@@ -222,12 +264,12 @@ fn run(input: RunInput) -> ScenFuture {
         }
         if *imp_accepted.lock().unwrap() > 0 { w.probe("impostor-saw-completed-tls(plain-connect)"); }
         for p in c.net.peers() {
-            w.check(Some(p) == e_online.then_some(e_id) || p == o.peer_id || p == m_id || p == c.peer_id, "listed-identity-nobody-holds", w.pname(&p), || "caller lists an identity that no reachable endpoint holds".into());
+            w.check(Some(p) == e_online.then_some(e_id) || p == o.peer_id || p == m_id || p == c.peer_id || takeover_ids.contains(&p), "listed-identity-nobody-holds", w.pname(&p), || "caller lists an identity that no reachable endpoint holds".into());
         }
         w.sample("known_peers_of_caller", json!(kp.iter().map(|(p, a)| format!("{}={a}", w.pname(p))).collect::<Vec<_>>()));
         w.sample("calls", json!({"e_online": e_online, "lossy": lossy, "calls": results.iter().map(|(i, r, _)| json!({"target": format!("{:?}", plan[*i].0), "expect": plan[*i].1.map(|p| w.pname(&p)), "result": r.as_ref().map(|p| w.pname(p)).map_err(|e| e.chars().take(60).collect::<String>())})).collect::<Vec<_>>()}));
         let out = w.finish();
-        drop((c, e, o, imp, chain_ep));
+        drop((c, e, o, imp, chain_ep, retired_nodes));
         out
     })
 }
